@@ -139,7 +139,7 @@ func (g *xgroup) evalX(c *xcase) (fs []xfinding, evals int, verdict string) {
 		}
 		class := fmt.Sprintf("xfmt:%s:%s:%s:%s", g.name, c.limit, oracle, pair)
 		fs = append(fs, xfinding{key: class + ":" + names + ":" + c.point + ":" + c.kind, class: class, detail: map[string]any{
-			"mode": "xfmt", "group": g.name, "limit": c.limit, "point": c.point, "kind": c.kind, "oracle": oracle, "form": x, "other_form": y,
+			"key": class + ":" + names + ":" + c.point + ":" + c.kind, "mode": "xfmt", "group": g.name, "limit": c.limit, "point": c.point, "kind": c.kind, "oracle": oracle, "form": x, "other_form": y,
 			"input": clipS(in, x), "detail": short(detail, 600)}})
 	}
 	var vs []string
@@ -309,8 +309,45 @@ func xfmtPhase(r *vk.Run, th bool, only string) (evals, nontrivial int, info map
 	}
 	sort.Slice(recs, func(a, b int) bool { return recs[a].ord < recs[b].ord })
 	for _, v := range recs {
-		r.Violation(v.f.key, v.f.detail)
+		violate(r, v.f.key, v.f.detail)
 	}
 	info = map[string]any{"groups": len(perGroup), "cases_per_group": perGroup, "limits": len(limitsSeen), "cases": len(jobs), "distinct_verdict_vectors": len(verdicts)}
 	return
+}
+
+// replayXfmt re-runs the recorded (group, limit, point, kind) case five times.
+func replayXfmt(r *vk.Run) int {
+	var d struct {
+		Key, Group, Limit, Point, Kind string
+	}
+	if err := r.ReadReplay(&d); err != nil {
+		fmt.Println("cannot read replay:", err)
+		return 0
+	}
+	n := 0
+	for _, g := range xgroups() {
+		if g.name != d.Group {
+			continue
+		}
+		for _, c := range g.cases(r.Thorough()) {
+			if c.limit != d.Limit || c.point != d.Point || c.kind != d.Kind {
+				continue
+			}
+			for k := 0; k < 5; k++ {
+				fs, _, verdict := g.evalX(&c)
+				var keys []string
+				for _, f := range fs {
+					keys = append(keys, f.key)
+					if f.key == d.Key || d.Key == "" {
+						violate(r, f.key, f.detail)
+					}
+				}
+				fmt.Printf("replay %d: %s %s %s %s -> %s %v\n", k+1, d.Group, d.Limit, d.Point, d.Kind, verdict, keys)
+				n++
+			}
+			return n
+		}
+	}
+	fmt.Println("replay: no such case", d)
+	return n
 }
